@@ -28,10 +28,10 @@ func (c *ChoquetIntegralBiasListener) Spec_OnCriterionAdded(
 	parsedParams := params.(choquetParams)
 	oldWeights := parsedParams.weights
 	newCriteria := parsedParams.criteria.Spec_Add(criterion)
-	// C20: the capacities double with every added criterion; beyond 16 criteria the addition is refused (a 400), so that
+	// C20: the capacities double with every added criterion; beyond 20 criteria the addition is refused (a 400), so that
 	// no request can exhaust the memory by repeating a criterion-adding bias
-	if len(newCriteria) > 16 {
-		panic(fmt.Errorf("choquet integral: cannot add criterion '%s', at most %d criteria are supported", criterion.Id, 16))
+	if len(newCriteria) > 20 {
+		panic(fmt.Errorf("choquet integral: cannot add criterion '%s', at most %d criteria are supported", criterion.Id, 20))
 	}
 	newWeightsKeys := Spec_PowerSet(*newCriteria.Spec_Names())
 	newWeights := make(model.Weights, len(*newWeightsKeys))
